@@ -185,6 +185,47 @@ func runCtl(cfg c14cfg, choose func(step int, n int) int) (choices, enabled []in
 	return
 }
 
+// runCtlBox: one schedule of cfg on a box with the given topic limit; `after` runs sequentially once all threads finished.
+// The scheduler's Handed field carries the handler log at the end.
+func runCtlBox(cfg c14cfg, limit int, choose func(step int, n int) int, after func(b *msg.Box, h *boxHandler)) (choices, enabled []int, hlog []string, s *ctlSchedResult, ok bool) {
+	ctlMu.Lock()
+	defer ctlMu.Unlock()
+	h := &boxHandler{}
+	b := newBox(h)
+	b.MaxInFlightTopicsBySender = limit
+	msg.SetVerifHook(func(string) {})
+	for _, d := range cfg.Pre {
+		mkOp(b, d)()
+	}
+	sc := ctlsched.New()
+	msg.SetVerifHook(sc.Hook)
+	var ops [][]func()
+	for _, th := range cfg.Threads {
+		var o []func()
+		for _, d := range th {
+			o = append(o, mkOp(b, d))
+		}
+		ops = append(ops, o)
+	}
+	sc.Start(ops)
+	choices, enabled, ok = sc.Run(func(step int, en []*ctlsched.Thread) int { return choose(step, len(en)) })
+	msg.SetVerifHook(func(string) {})
+	if ok && after != nil {
+		after(b, h)
+	}
+	b.Stop()
+	h.mu.Lock()
+	hlog = append([]string{}, h.log...)
+	h.mu.Unlock()
+	return choices, enabled, hlog, &ctlSchedResult{Trace: sc.Trace, Deadlock: sc.Deadlock, Handed: hlog}, ok
+}
+
+type ctlSchedResult struct {
+	Trace    []string
+	Deadlock string
+	Handed   []string
+}
+
 func c14configs(e common.Env) []c14cfg {
 	L := e.Pick(6000, 400000)
 	S := e.Pick(600, 20000)
